@@ -17,6 +17,13 @@ pub use wrapper_types::ObjectPath;
 pub use wrapper_types::SignatureWrapper;
 
 /// The different header fields a message may or maynot have
+/// The maximum length of a whole message (header, padding and body): 128 MiB
+pub const MAX_MESSAGE_LEN: usize = 1 << 27;
+/// The maximum length of the contents of an array or dict: 64 MiB
+pub const MAX_ARRAY_LEN: usize = 1 << 26;
+/// The maximum depth of nested containers (arrays, dicts, structs and variants) in a message
+pub const MAX_NESTING_DEPTH: usize = 64;
+
 #[derive(Debug)]
 pub enum HeaderField {
     Path(String),
